@@ -22,6 +22,7 @@
 -/
 import CatVerif.Proofs.RingInvP
 import CatVerif.Proofs.Fifo
+import CatVerif.Proofs.Steps
 namespace Cat
 open St
 
@@ -137,5 +138,15 @@ theorem C13_taken_prefix (D : Desc) (buf ubuf : List Byte) (mem : List (List Byt
     (hc : 0 < D.cap) (hq : ∀ op ∈ ops, OpQ op) :
     histTaken ⟨D, init D buf ubuf mem⟩ ops <+: histAccepted ⟨D, init D buf ubuf mem⟩ ops :=
   ⟨_, (C13_fifo_exactly_once D buf ubuf mem ops hc hq).symm⟩
+
+/-- the ring operations — refuse when full, store at the tail, advance with wrap-around, count; take
+from the head, advance with wrap-around, count down; hand the popped event to the READ or TEST
+formatter — are, in the model, the functions whose statement shapes are re-recognised in
+`push_unsolicited_cmd`, `pop_unsolicited_cmd` and `check_unsolicited_buffers` of the source on every
+run (translator item T13: any other statement there is reported as a broken tie) -/
+theorem C13_ring_generated (D : Desc) (s : St) (c : Nat) (t : CmdType) :
+    pushUnsolicited D s c t = Gen.push_unsolicited_cmd D s c t ∧
+    checkUnsolicitedBuffers D s = Gen.check_unsolicited_buffers D s :=
+  ⟨pushUnsolicited_generated D s c t, checkUnsolicitedBuffers_generated D s⟩
 
 end Cat
